@@ -112,12 +112,22 @@ func main() {
 		}
 	}
 	deadline := t0.Add(budget)
+	reserve := 20 * time.Second
+	if e.Thorough {
+		reserve = 3 * time.Minute
+	}
 	sums := map[string]*sym.Summary{}
 	var notes []string
 	for i, h := range harnesses {
 		// split the remaining budget evenly over the remaining harnesses
+		// greedy: everything that is left, minus a reserve for the harnesses
+		// still to come (but never less than an even share)
 		remain := time.Until(deadline)
-		per := remain / time.Duration(len(harnesses)-i)
+		left := time.Duration(len(harnesses) - i)
+		per := remain - (left-1)*reserve
+		if even := remain / left; per < even {
+			per = even
+		}
 		if per < 5*time.Second {
 			per = 5 * time.Second
 		}
